@@ -316,9 +316,12 @@ def run(rep, tier, seed, selftest):
     replayed = 0
     samples = []
 
+    reported = set()
+
     def report(case, devs, obs, expected):
         for sig in devs:
             sigs[sig] += 1
+            reported.add("%s :: %s" % (sig, describe(case)))
             rep.violation("literal", "%s :: %s" % (sig, describe(case)),
                           {"case": case, "observed": {k: v for k, v in obs.items() if k != "stdout"}, "expected": expected,
                            "problem": sig, "how": "bin/check C09 --replay <this file>"})
@@ -413,8 +416,13 @@ def run(rep, tier, seed, selftest):
             sigs[sig] += 1
             lit = ("-" if rc["neg"] else "") + bytes(rc["lit"]).decode()
             stmt = ("var x = %s;" % lit) if rc["sfx"] else ("var x: %s = %s;" % (rc["t"], lit))
-            rep.violation("literal", "%s :: %s" % (sig, stmt), {"recording": rc, "problem": sig,
-                                                                 "message": "rejected by TLC (Trace_Literals): not what the rule prescribes"})
+            key = "%s :: %s" % (sig, stmt)
+            if key in reported:
+                continue            # the very same statement was already reported from the enumeration
+            reported.add(key)
+            rep.violation("literal", key, {"recording": rc, "statement": stmt, "problem": sig,
+                                           "message": "rejected by TLC (Trace_Literals): not what the rule prescribes",
+                                           "how": "bin/check C09 --replay <this file>"})
         for rc in recs:
             nontrivial.add(("rand", rc["t"], bytes(rc["lit"]), rc["neg"]))
     replayed += rand_total
@@ -506,6 +514,14 @@ def replay(path):
     print("key :", d.get("key"))
     det = d.get("detail", {})
     case = det.get("case")
+    if not case and det.get("recording"):
+        rc = det["recording"]
+        print("recorded:", json.dumps({k: rc[k] for k in ("t", "sfx", "neg", "accepted", "lint", "code", "printed")}))
+        src = "fn main() -> u8\n{\n\t%s print!(x, \"\\n\");\n\treturn: 0\n}\n" % (det.get("statement") or d["key"].split(" :: ", 1)[1])
+        for i, l in enumerate(src.split("\n"), 1):
+            print("%3d | %s" % (i, l))
+        print("observed now:", json.dumps(run_programs([(src, True)], "replay")[0]))
+        return 0
     if not case:
         print(json.dumps(d, indent=1)[:3000])
         return 0
